@@ -248,6 +248,10 @@ func lookupAllMembers(pj *simdjson.ParsedJson, roots []*rj.Node) error {
 				if err := eqNumeric(n, g, fmt.Sprintf("Array.MarshalJSON at %v", path)); err != nil {
 					return fmt.Errorf("%v\noutput: %q", err, clip(out))
 				}
+				// marshalling reads: the same Array value marshals to the same text again
+				if out2, err := arr.MarshalJSON(); err != nil || !bytes.Equal(out, out2) {
+					return fmt.Errorf("Array.MarshalJSON at %v, called a second time on the same Array: %q, %v; the first call gave %q", path, clip(out2), err, clip(out))
+				}
 			}
 			for i, c := range n.A {
 				if err := rec(c, append(append([]int(nil), path...), i)); err != nil {
@@ -340,6 +344,16 @@ func lookupAllMembers(pj *simdjson.ParsedJson, roots []*rj.Node) error {
 				if err := eqNumeric(n, g, fmt.Sprintf("Elements.MarshalJSON at %v", path)); err != nil {
 					return fmt.Errorf("%v\noutput: %q", err, clip(out))
 				}
+				// marshalling reads: the same Elements marshal to the same text again and their members stay usable
+				if out2, err := els.MarshalJSON(); err != nil || !bytes.Equal(out, out2) {
+					return fmt.Errorf("Elements.MarshalJSON at %v, called a second time on the same Elements: %q, %v; the first call gave %q", path, clip(out2), err, clip(out))
+				}
+				for i, m := range n.O {
+					e := els.Elements[i]
+					if err := elementMatches(&e, m.Val, fmt.Sprintf("after Elements.MarshalJSON: Object.Parse member %d at %v", i, path)); err != nil {
+						return err
+					}
+				}
 			}
 			for i, m := range n.O {
 				if err := rec(m.Val, append(append([]int(nil), path...), i)); err != nil {
@@ -415,7 +429,11 @@ func TestC14_Histories(t *testing.T) {
 
 // c10After: marshal from iterators positioned on inner values, obtained in every supported way.
 func c10After(step int, pj *simdjson.ParsedJson, roots []*rj.Node) error {
-	return marshalEverywhere(pj, roots)
+	if err := marshalEverywhere(pj, roots); err != nil {
+		return err
+	}
+	// Array.MarshalJSON and Elements.MarshalJSON of every container
+	return lookupAllMembers(pj, roots)
 }
 
 func marshalEverywhere(pj *simdjson.ParsedJson, roots []*rj.Node) error {
@@ -494,6 +512,7 @@ func marshalEverywhere(pj *simdjson.ParsedJson, roots []*rj.Node) error {
 			if err := valueTextMatches(out, node, fmt.Sprintf("iterator at %v (nav %d)", p, nav)); err != nil {
 				return err
 			}
+
 			// MarshalJSONBuffer appends
 			it2, _ := locate(pj, roots, p, nav)
 			out2, err := it2.MarshalJSONBuffer([]byte("PREFIX"))
